@@ -386,7 +386,7 @@ def run(tier, seed):
         checker_cmd="python3 tools/coqmake.py Properties/C17.vo && Print Assumptions per theorem; ocaml/build_tree.sh; avh tree run / avm_tree / avh compat sweep",
         assumptions=["Weak references always upgrade (the harness keeps every handle and model)",
                      "C17_exact_fixed is stated outside the classes K_recalc / K_skip (K_mixup - mask read from the stored type with the recalculated "
-                     "type's indices, a panic on the real library - was fixed in /repo d9d0053 and is no side condition any more); C17_exact_histories_real: on the regenerated real "
+                     "type's indices, a panic on the real library - was fixed in /repo 96557f4 and is no side condition any more); C17_exact_histories_real: on the regenerated real "
                      "tables (PairOK and MaskOK by sweep) the check is exact after EVERY history of the 26-operation alphabet from the empty "
                      "world whose moves / copies satisfy attach_ok (the destination lists the element's name with the element's stored "
                      "datatype) - no hypothesis about the world; extended alphabet op2 (sort, set_version, check, serialize, "
